@@ -380,6 +380,17 @@ retry:
                 }
                 return status::OK;
             };
+            /**
+             * The keys leave a left-to-right scan in strictly ascending order.
+             * An entry that is not greater than the key delivered last was
+             * inserted behind the scan position: this border has absorbed the
+             * key range of a deleted left neighbour whose keys the scan has
+             * already delivered. The scan has passed that key.
+             */
+            if (!right_to_left && !tuple_list.empty() &&
+                full_key <= std::get<0>(tuple_list.back())) {
+                continue;
+            }
             if (l_end == scan_endpoint::INF && r_end == scan_endpoint::INF) {
                 // all range
                 if (in_range() != status::OK) return status::OK_SCAN_END;
